@@ -6,9 +6,11 @@ use std::io::{self, BufRead, Write};
 mod driver;
 mod exec;
 mod imemregs;
+mod iqlcd;
 mod kbd;
 mod tables;
 mod lcd;
+mod lcdtext;
 mod mem;
 mod regs;
 mod romload;
@@ -26,6 +28,8 @@ pub struct Ctx {
     pub mem: mem::MemCtx,
     pub rom: romload::RomCtx,
     pub imem: imemregs::ImemCtx,
+    pub lcdtext: lcdtext::LcdTextCtx,
+    pub iqlcd: iqlcd::IqLcdCtx,
 }
 
 fn dispatch(ctx: &mut Ctx, req: &Value) -> Result<Value, String> {
@@ -36,6 +40,8 @@ fn dispatch(ctx: &mut Ctx, req: &Value) -> Result<Value, String> {
         c if c.starts_with("timer.") => timer::handle(&mut ctx.timer, c, req),
         c if c.starts_with("rt.") => rt::handle(&mut ctx.rt, c, req),
         c if c.starts_with("driver.") => driver::handle(&mut ctx.driver, c, req),
+        c if c.starts_with("lcdtext.") => lcdtext::handle(&mut ctx.lcdtext, c, req),
+        c if c.starts_with("iqlcd.") => iqlcd::handle(&mut ctx.iqlcd, c, req),
         c if c.starts_with("lcd.") => lcd::handle(&mut ctx.lcd, c, req),
         c if c.starts_with("exec.") => exec::handle(&mut ctx.exec, c, req),
         c if c.starts_with("tables.") => tables::handle(c, req),
@@ -51,7 +57,7 @@ fn main() {
     let stdin = io::stdin();
     let stdout = io::stdout();
     let mut out = io::BufWriter::new(stdout.lock());
-    let mut ctx = Ctx { regs: regs::RegsCtx::default(), timer: timer::TimerCtx::default(), rt: rt::RtCtx::default(), driver: driver::DriverCtx::default(), lcd: lcd::LcdCtx::default(), exec: exec::ExecCtx::default(), kbd: kbd::KbdCtx::default(), mem: mem::MemCtx::default(), rom: romload::RomCtx::default(), imem: imemregs::ImemCtx::default() };
+    let mut ctx = Ctx { regs: regs::RegsCtx::default(), timer: timer::TimerCtx::default(), rt: rt::RtCtx::default(), driver: driver::DriverCtx::default(), lcd: lcd::LcdCtx::default(), exec: exec::ExecCtx::default(), kbd: kbd::KbdCtx::default(), mem: mem::MemCtx::default(), rom: romload::RomCtx::default(), imem: imemregs::ImemCtx::default(), lcdtext: lcdtext::LcdTextCtx::default(), iqlcd: iqlcd::IqLcdCtx::default() };
     for line in stdin.lock().lines() {
         let line = match line {
             Ok(l) => l,
